@@ -391,6 +391,28 @@ def gen_history(rng, hid, tname, T, nops, faults=True):
                     ops.append(corrupt(t, "foreign", pd, fname, other=T["state"][o][1], other_model=o))
             else:
                 ops.append(corrupt(t, "lorem", pd, fname))
+    # an input-less target must run whatever lies in its state file: a complete record of a sibling is copied over it after the
+    # sibling was built (this is how F11 was met at seed 3; it is now part of every second history that has such a target)
+    noin = [t for t in T["targets"] if not T["model"]["targets"][t]["hasInput"]]
+    if faults and noin and rng.random() < 0.5:
+        t = noin[0]
+        pd, fname = T["state"][t]
+        sib = [o for o in T["targets"] if o != t and T["model"]["targets"][o]["hasInput"] and T["state"][o][0] == pd]
+        if sib:
+            o = rng.choice(sib)
+            ivo = T["inv"][o]
+            ivo = ivo[0] if isinstance(ivo, list) else ivo
+            ivt = T["inv"][t]
+            ivt = ivt[0] if isinstance(ivt, list) else ivt
+            if rng.random() < 0.6:
+                # ... a sibling whose declared inputs currently match no file and whose outputs are absent, like the target's own:
+                # its record describes "nothing", exactly what an input-less target with absent outputs looks like
+                for p in T["model"]["targets"][o]["inp"] + T["model"]["targets"][o]["out"] + T["model"]["targets"][t]["out"]:
+                    if p in T["model"]["paths"] and not p.startswith("CMD:") and p not in real:
+                        ops.append(rm(p))
+            ops.append(invoke(o, entry=ivo["entry"], name=ivo["name"]))
+            ops.append(corrupt(t, "foreign", pd, fname, other=T["state"][o][1], other_model=o))
+            ops.append(invoke(t, entry=ivt["entry"], name=ivt["name"]))
     # always end with an untouched re-invocation of every target (C03: nothing changed => skipped)
     for t in T["targets"]:
         iv = T["inv"][t]
